@@ -102,6 +102,12 @@ var c19Units = []struct {
 }{{"ns", 1}, {"us", 1e3}, {"µs", 1e3}, {"ms", 1e6}, {"s", 1e9}, {"m", 60e9}, {"h", 3600e9}}
 
 func runC19(idx int, rng *rand.Rand, tier string) []Case {
+	if idx%300 == 7 {
+		return c19GuardCLI(idx, rng)
+	}
+	if idx%600 == 11 {
+		return c19DNSTTLCLI(idx, rng)
+	}
 	switch idx % 6 {
 	case 0, 1:
 		return c19Rate(rng, idx)
